@@ -181,8 +181,22 @@ func ZZ_C19_canaryCmds() {
 		return
 	}
 	if err != nil {
-		// a refusal (already paused / already validated ...) writes nothing
+		// a refusal writes nothing ...
 		nondet.Assert("C19.canary.error-writes-nothing", writes == 0)
+		// ... and with the precondition satisfied the only acceptable refusal is that the very
+		// annotation the command would write already says so (pause: canary-paused=true;
+		// unpause: canary-paused=false; validate: canary-valid already names the canary).
+		// An auto-paused canary (paused by the replica set's condition) must be unpausable.
+		alreadyDone := false
+		switch cmd {
+		case "pause":
+			alreadyDone = before.Annotations[v1alpha1.ExtendedDaemonSetCanaryPausedAnnotationKey] == "true"
+		case "unpause":
+			alreadyDone = before.Annotations[v1alpha1.ExtendedDaemonSetCanaryPausedAnnotationKey] == "false"
+		case "validate":
+			alreadyDone = before.Annotations[v1alpha1.ExtendedDaemonSetCanaryValidAnnotationKey] == "foo-b"
+		}
+		nondet.Assert("C19.canary.acts-when-precondition-holds", alreadyDone)
 		return
 	}
 	// "modify only the documented annotation or condition of the targeted object"
